@@ -246,24 +246,31 @@ def newTaxon (h : Heap) (label : Val) : Heap × Nat :=
   (h1.push { kind := .taxon, cls := "Taxon", fields := [("_label", label), ("_lower_cased_label", .atom "None"), ("comments", .ref c)] },
    c + 1)
 
-def preseed : St → List (Nat × PreTarget) → St
-  | s, [] => s
-  | s, (i, .existing j) :: r => preseed ⟨s.h, (i, j) :: s.m⟩ r
+/-- the route's `memo` before `copy.deepcopy` is called.  Nothing is defaulted: a target outside the heap, a repeated label whose
+first occurrence was not seeded, or a source taxon without `_label` is an error. -/
+def preseed : St → List (Nat × PreTarget) → Except Err St
+  | s, [] => .ok s
+  | s, (i, .existing j) :: r =>
+    if j < s.h.size then preseed ⟨s.h, (i, j) :: s.m⟩ r else .error .dangling
   | s, (i, .sameAs k) :: r =>
     match s.m.lookup k with
     | some j => preseed ⟨s.h, (i, j) :: s.m⟩ r
-    | none => preseed s r
+    | none => .error .malformed
   | s, (i, .fresh) :: r =>
-    let lab := match s.h[i]? with
-      | some o => (o.get "_label").getD (.atom "None")
-      | none => .atom "None"
-    let (h1, j) := newTaxon s.h lab
-    preseed ⟨h1, (i, j) :: s.m⟩ r
+    match s.h[i]? with
+    | none => .error .dangling
+    | some o =>
+      match o.get "_label" with
+      | none => .error .malformed
+      | some lab =>
+        let (h1, j) := newTaxon s.h lab
+        preseed ⟨h1, (i, j) :: s.m⟩ r
 
 /-- a whole copy route: pre-seed, then `copy.deepcopy(root, memo)` with fuel = number of objects + 1 -/
 def copyRoute (h : Heap) (pre : List (Nat × PreTarget)) (root : Val) : Except Err (St × Val) :=
-  let s0 := preseed ⟨h, []⟩ pre
-  cpVal (h.size + 1) s0 root
+  match preseed ⟨h, []⟩ pre with
+  | .error e => .error e
+  | .ok s0 => cpVal (h.size + 1) s0 root
 
 /-! ### `Node.extract_subtree` without a node filter (thin structural clone) -/
 
